@@ -280,6 +280,24 @@ M.trust('executor.execute (module level): modelled as "any outcome, any current 
         'superset of the behaviours C01 proves for _PartialExecutor.execute')
 
 
+# "When execution ends -- at any step -- the sandbox is removed": the contract of `execution.execute` below says
+# so for every RETURN of the executor and says that nothing is removed when the executor RAISES.  That the executor
+# raises nothing once the sandbox exists (only an OSError of the sandbox construction itself may escape) is what C01
+# proves of `executor.execute` and of every step below it; those contracts carry C04 too and are re-proved by this check.
+def _executor_never_raises():
+    from contracts.common import share_contracts
+    from contracts import C01_protocol as c01
+    layers = (c01.P_EX + ':', c01.P_PSE + ':', c01.P_SIE + ':', c01.P_AH + ':', c01.P_AX + ':', c01.P_SV + ':')
+    names = share_contracts('C04', 'contracts.C01_protocol', lambda q: q.startswith(layers))
+    top = [c for c in c01.M.contracts if c.qname == c01.P_EX + ':execute']
+    assert len(top) == 1 and top[0].raises_only == () and set(top[0].raises) == {OSError}, \
+        'C04 rests on: executor.execute lets nothing but an OSError of the sandbox construction escape'
+    return names
+
+
+M.after_load = _executor_never_raises
+
+
 def rmtree_events(trace):
     return events(trace, 'rmtree')
 
